@@ -18,6 +18,7 @@ type Entry struct {
 	Name   string
 	Type   reflect.Type
 	Schema *parquet.Schema
+	HasMap bool // contains Go maps: entry order is unspecified, compare values not streams
 
 	// GenericWriter[T]: batches gives the number of rows per Write call (0 = Flush), the rest in one call
 	WriteGeneric func(w io.Writer, rows any, batches []int, opts ...parquet.WriterOption) error
